@@ -91,11 +91,12 @@ func (v pathValue) Int() int {
 	return v.iv
 }
 
-func (v pathValue) Int32() int32 {
+// Int32 tells the value as int32, and whether it fits
+func (v pathValue) Int32() (int32, bool) {
 	if v.iv > math.MaxInt32 || v.iv < math.MinInt32 {
-		panic("integer overflow")
+		return 0, false
 	}
-	return int32(v.iv)
+	return int32(v.iv), true
 }
 
 type pathToken struct {
@@ -116,6 +117,8 @@ func (p pathToken) Err() error {
 	switch p.typ {
 	case pathTypeEOF:
 		return io.EOF
+	case pathTypeERR:
+		return fmt.Errorf("%s", p.val.Str())
 	default:
 		return nil
 	}
@@ -165,9 +168,11 @@ func newPathToken(typ pathType, val string, s, e int) pathToken {
 	case pathTypeLitInt:
 		i, err := strconv.Atoi(val)
 		if err != nil {
-			panic(err)
+			return pathToken{typ: pathTypeERR, val: newPathValueStr("invalid integer " + val), loc: [2]int{s, e}}
 		}
 		return pathToken{typ: typ, val: newPathValueInt(i), loc: [2]int{s, e}}
+	case pathTypeERR:
+		return pathToken{typ: typ, val: newPathValueStr(val), loc: [2]int{s, e}}
 	default:
 		panic("unspported pathType " + val)
 	}
@@ -286,6 +291,10 @@ func (p *pathIterator) str() (string, error) {
 		}
 	}
 ret:
+	if i > len(p.src) {
+		// the last byte is a backslash: the literal is not terminated
+		i = len(p.src)
+	}
 	val := p.src[p.pos:i]
 	p.pos = i
 	val, err := strconv.Unquote(val)
@@ -347,7 +356,11 @@ func (cur *FieldMask) GetPath(desc *thrift_reflection.TypeDescriptor, path strin
 
 			var f *thrift_reflection.FieldDescriptor
 			if typ == pathTypeLitInt {
-				f = st.GetFieldById(tok.val.Int32())
+				id, ok := tok.val.Int32()
+				if !ok {
+					return nil, false
+				}
+				f = st.GetFieldById(id)
 				if f == nil {
 					return nil, false
 				}
